@@ -1,0 +1,137 @@
+//go:build verif
+
+package engine
+
+import (
+	"fmt"
+	"sort"
+)
+
+// This file is compiled only with the build tag `verif`. It adds read-only accessors
+// used by the external verification harness and touches no existing code.
+
+// VerifProc describes a registered procedure.
+type VerifProc struct {
+	Name    string
+	Arity   int
+	Builtin bool
+	Dynamic bool
+	Public  bool
+}
+
+// VerifProcedures lists all the registered procedures.
+func (vm *VM) VerifProcedures() []VerifProc {
+	var ret []VerifProc
+	for pi, p := range vm.procedures {
+		u, user := p.(*userDefined)
+		vp := VerifProc{Name: pi.name.String(), Arity: int(pi.arity), Builtin: !user}
+		if user {
+			vp.Dynamic, vp.Public = u.dynamic, u.public
+		}
+		ret = append(ret, vp)
+	}
+	sort.Slice(ret, func(i, j int) bool {
+		if ret[i].Name != ret[j].Name {
+			return ret[i].Name < ret[j].Name
+		}
+		return ret[i].Arity < ret[j].Arity
+	})
+	return ret
+}
+
+// VerifInstr is an instruction of a compiled clause.
+type VerifInstr struct {
+	Op      string
+	Operand Term
+}
+
+// VerifClause is a compiled clause.
+type VerifClause struct {
+	Raw   Term
+	NVars int
+	Code  []VerifInstr
+}
+
+var verifOpNames = [...]string{
+	opEnter: "enter", opCall: "call", opExit: "exit", opGetConst: "get_const", opPutConst: "put_const",
+	opGetVar: "get_var", opPutVar: "put_var", opGetFunctor: "get_functor", opPutFunctor: "put_functor", opPop: "pop",
+	opCut: "cut", opGetList: "get_list", opPutList: "put_list", opGetPartial: "get_partial", opPutPartial: "put_partial",
+}
+
+func verifClauses(cs []clause) []VerifClause {
+	ret := make([]VerifClause, len(cs))
+	for i, c := range cs {
+		ret[i] = VerifClause{Raw: c.raw, NVars: len(c.vars)}
+		for _, in := range c.bytecode {
+			op := in.operand
+			if pi, ok := op.(procedureIndicator); ok {
+				op = pi.Term()
+			}
+			name := fmt.Sprintf("op%d", in.opcode)
+			if int(in.opcode) < len(verifOpNames) {
+				name = verifOpNames[in.opcode]
+			}
+			ret[i].Code = append(ret[i].Code, VerifInstr{Op: name, Operand: op})
+		}
+	}
+	return ret
+}
+
+// VerifClauses returns the compiled clauses of a user-defined procedure.
+func (vm *VM) VerifClauses(name string, arity int) []VerifClause {
+	u, ok := vm.procedures[procedureIndicator{name: NewAtom(name), arity: Integer(arity)}].(*userDefined)
+	if !ok {
+		return nil
+	}
+	return verifClauses(u.clauses)
+}
+
+// VerifCompile compiles a clause term without storing it.
+func VerifCompile(t Term, env *Env) ([]VerifClause, error) {
+	cs, err := compile(t, env)
+	if err != nil {
+		return nil, err
+	}
+	return verifClauses(cs), nil
+}
+
+// VerifEnvCheck checks the red-black tree invariants of env and returns the number of bindings and the black height.
+func VerifEnvCheck(env *Env) (size, blackHeight int, err error) {
+	if env == nil {
+		return 0, 0, nil
+	}
+	if env.color != black {
+		return 0, 0, fmt.Errorf("root is not black")
+	}
+	var check func(e *Env, lo, hi *envKey) (int, int, error)
+	check = func(e *Env, lo, hi *envKey) (int, int, error) {
+		if e == nil {
+			return 0, 1, nil
+		}
+		if lo != nil && e.key <= *lo || hi != nil && e.key >= *hi {
+			return 0, 0, fmt.Errorf("key %d out of order", e.key)
+		}
+		if e.color == red {
+			if e.left != nil && e.left.color == red || e.right != nil && e.right.color == red {
+				return 0, 0, fmt.Errorf("red node %d has a red child", e.key)
+			}
+		}
+		k := e.key
+		ls, lh, err := check(e.left, lo, &k)
+		if err != nil {
+			return 0, 0, err
+		}
+		rs, rh, err := check(e.right, &k, hi)
+		if err != nil {
+			return 0, 0, err
+		}
+		if lh != rh {
+			return 0, 0, fmt.Errorf("black height mismatch at %d: %d vs %d", e.key, lh, rh)
+		}
+		if e.color == black {
+			lh++
+		}
+		return ls + rs + 1, lh, nil
+	}
+	return check(env, nil, nil)
+}
